@@ -121,7 +121,10 @@ CLAIMS = {
              "(any number of reboots: rehydrate_idempotent; counters_agree); reboot_transparent_corner: in that corner "
              "the rehydrated (stage-1) state completes at exactly the same fragment (rank argument through "
              "done_iff_span and stage1_done_iff). Checked on the real SlotManager/Updater by twin runs with reboots at "
-             "(sampled) every position, comparing outcomes, counters, final check and final flash image.",
+             "(sampled) every position, comparing outcomes, counters, final check and final flash image. C07c closes the stage corner (parity processing begun, no row stored yet; reachable: corner_reachable) at "
+             "flash level: recover_refines_corner_L2 (recovery returns a stage-1 updater with the same received set, "
+             "flash untouched, abstraction = rehydrate) and reboot_transparent_corner_L2 (every later delivery is answered "
+             "exactly as without the reboot; with a coded fragment next also the same final abstraction).",
         note="C07b ties this to the flash-level model: recover_refines (for a Lawful session whose two headers are the "
              "newest pair and with no other slot needing remediation, try_recover_inner returns — reading only — an updater "
              "with the same slots, geometry, used mask, done mask = status bytes, l recomputed, whose abstraction is "
